@@ -1,6 +1,6 @@
 (** C05, first half, at every state of every micro schedule before shutdown(): no weight stays charged for a key that is
     gone.  Every charged id is the id of the stored entry of its key - except the one id the worker has in flight
-    (admitted and charged but not yet inserted; removed from the store but not yet released), whose key is then not
+    (let in and charged but not yet inserted; removed from the store but not yet released), whose key is then not
     occupied by anybody else.  [Inv] states this without the exception and is false inside those windows. *)
 From CacheD Require Import Base Sketch Model Window Micro.
 From CacheD.proofs Require Import Defs AListLemmas InvLemmas InvOps InvCalls InvWorker InvProofs ApiProofs HistoryProofs
@@ -15,7 +15,7 @@ Definition fnone : fl := {| f_id := None; f_key := None |}.
 Definition fl_of (ms : mstate) : fl :=
   match wdel ms with
   | Some (WDStore _ id _) => {| f_id := Some id; f_key := None |}
-  | Some (WPAdmitted _ k _ id _ _) => {| f_id := Some id; f_key := Some k |}
+  | Some (WPCharged _ k _ id _ _) => {| f_id := Some id; f_key := Some k |}
   | _ => fnone
   end.
 
@@ -23,7 +23,7 @@ Record SI (s : state) (f : fl) : Prop := {
   si_charged : forall id wk, alookup id (weights s) = Some wk ->
       idof s (w_key wk) = Some id \/ (f_id f = Some id /\ idof s (w_key wk) = None);
   si_key : forall k, f_key f = Some k -> idof s k = None;
-  si_admitted : forall k id wk, f_key f = Some k -> f_id f = Some id -> alookup id (weights s) = Some wk -> w_key wk = k
+  si_flight_key : forall k id wk, f_key f = Some k -> f_id f = Some id -> alookup id (weights s) = Some wk -> w_key wk = k
 }.
 
 (** ** frames *)
@@ -151,7 +151,7 @@ Proof.
   destruct (add_i64 cfg _ w) as [u|]; apply H; try reflexivity; intros k0; reflexivity.
 Qed.
 
-(** the admitted key is inserted: nothing is in flight any more *)
+(** the let in key is inserted: nothing is in flight any more *)
 Lemma store_insert_SI : forall k v id exp s, SI s {| f_id := Some id; f_key := Some k |} -> SI (store_insert k v id exp s) fnone.
 Proof.
   intros k v id exp s [C1 C2 C4]. cbn [f_id f_key] in *.
@@ -761,7 +761,7 @@ Qed.
 
 (* STATEMENT (C05, "no weight stays charged for a key that is gone", at every state of every micro schedule, no condition
    on the events): before shutdown() is called and while the worker has not panicked, every charged id is the id of the
-   stored entry of its own key - except the single id the worker has in flight at that instant (a put admitted and
+   stored entry of its own key - except the single id the worker has in flight at that instant (a put let in and
    charged but not yet inserted, a Delete whose entry is removed but whose charge is not yet released), and then nobody
    else occupies that key *)
 Lemma micro_charged_is_stored_all : forall cfg evs id wk,
